@@ -51,7 +51,7 @@ for c in checks:
 h = hashlib.sha1(wt.encode()).hexdigest()[:10]
 shutil.rmtree("/tmp/verif-sandbox/" + h, ignore_errors=True)
 subprocess.run(["git", "-C", "/repo", "worktree", "remove", "--force", wt], capture_output=True)
-sd = "/verif/seeded/%s-%s" % (prop, i)
+sd = "/verif/seeded/%s-%s" % (prop, os.environ.get("SEED_STORE_AS", i))
 os.makedirs(sd, exist_ok=True)
 shutil.copy(patch, sd + "/patch.diff"); shutil.copy(demo, sd + "/demo_test.go")
 if os.path.exists(notes): shutil.copy(notes, sd + "/notes.md")
